@@ -330,7 +330,7 @@ def _api_pipeline(arch, line, fixed, tools):
     fe.full_analysis_dict(kernel, dg, lcd_warning=dg.timed_out)
 
 
-def _pipeline_crashes(arch, lines, workdir, tools, chunk=20):
+def _pipeline_crashes(arch, lines, workdir, tools, chunk=40):
     """Run the CLI analysis (default and --fixed) on chunks of lines.  When a chunk raises, every line
     of it goes through the same stages on its own (models loaded once); the lines that raise there
     are the witnesses, otherwise the chunk as a whole is."""
